@@ -19,6 +19,9 @@ pub struct Case {
     pub msgs: Vec<(usize, usize)>,
     pub fill: Fill,
     pub tag: u64,
+    /// the bytes the caller's RNG hands out are this hex string instead of the seeded ones (boundary witness)
+    #[serde(default)]
+    pub rng_hex: Option<String>,
 }
 
 pub struct C02 {
@@ -94,10 +97,19 @@ impl Part for C02 {
                                 vec![FILLS_QUICK[(tag % 2) as usize]]
                             };
                             for fill in fills {
-                                v.push(Case { suite, mode, info_len, psk_len, psk_id_len, msgs: msgs.clone(), fill, tag });
+                                v.push(Case { suite, mode, info_len, psk_len, psk_id_len, msgs: msgs.clone(), fill, tag, rng_hex: None });
                             }
                         }
                     }
+                }
+            }
+        }
+        // P-256: the RNG hands out an ikm whose first DeriveKeyPair candidate is >= n (Appendix B witness)
+        for suite in all_suites() {
+            if suite.kem == crate::refmodel::Kem::P256 && suite.kdf == crate::refmodel::Kdf::Sha256 {
+                for mode in MODES {
+                    tag += 1;
+                    v.push(Case { suite, mode, info_len: 3, psk_len: if mode.has_psk() { 32 } else { 0 }, psk_id_len: if mode.has_psk() { 4 } else { 0 }, msgs: vec![(5, 1)], fill: Fill::Mix, tag, rng_hex: Some(super::c03::P256_RETRY_WITNESS_32.into()) });
                 }
             }
         }
@@ -106,7 +118,10 @@ impl Part for C02 {
     fn run(&self, cfg: &Cfg, c: &Case) -> CaseOut {
         let mut out = CaseOut::new();
         let ops = suite_ops(c.suite);
-        let k = keys(c.suite.kem, c.tag, cfg.seed);
+        let mut k = keys(c.suite.kem, c.tag, cfg.seed);
+        if let Some(h) = &c.rng_hex {
+            k.ikm_e = crate::obs::unhex(h);
+        }
         let info = bytes(c.fill, c.info_len, 10, cfg.seed);
         // PSK material: all-zero psk is a legal psk; keep psk != psk_id (different tags)
         let psk = bytes(c.fill, c.psk_len, 11, cfg.seed ^ 0xabcd);
